@@ -29,7 +29,8 @@ import (
 type c08Case struct {
 	N        int    `json:"targets"`
 	Outcome  []byte `json:"outcomes"` // per target: 'p' positive, 'n' negative, 'e' probe error, 'I' bad ip line, 'P' bad port line
-	Latency  []byte `json:"latency"`  // per target: 0 none, 1 Gosched, 2 100us, 3 2ms
+	Latency  []byte `json:"latency"`  // per target: 0 none, 1 Gosched, 2 100us, 3 2ms, 4 TailMs (slow positive probes at the end of the list: the scan outlasts the exit delay)
+	TailMs   int    `json:"slow_tail_ms"`
 	Workers  int    `json:"workers"`
 	Rate     bool   `json:"rate_limiter"`
 	Direct   bool   `json:"direct_engine"` // observe the engine's done channel instead of going through startScanEngine
@@ -85,6 +86,8 @@ func (s *c08Scanner) Scan(ctx context.Context, r *scan.Request) (scan.Result, er
 		time.Sleep(100 * time.Microsecond)
 	case 3:
 		time.Sleep(2 * time.Millisecond)
+	case 4:
+		time.Sleep(time.Duration(s.c.TailMs) * time.Millisecond)
 	}
 	switch s.c.Outcome[i] {
 	case 'p':
@@ -182,6 +185,9 @@ func c08Check(c c08Case) *kit.Verdict {
 	if c.StallMs > 0 {
 		v.Label("writer-stall")
 	}
+	if c.TailMs > 0 {
+		v.Label("slow-positive-tail")
+	}
 	real, err := log.NewLogger(out, "c08", log.JSON())
 	if err != nil {
 		return v.Failf("logger: %v", err)
@@ -277,7 +283,7 @@ func TestC08Engine(t *testing.T) {
 	maxN := kit.EnvInt("C08_MAXN", 3000)
 	kit.Run(t, kit.Spec[c08Case]{
 		Prop: "C08",
-		Rule: "target file of 0..5000 ip/port lines (more positives than the 2x1000-slot result buffers, more errors than the 100-slot error buffer) with a drawn outcome per target (positive / negative / probe error / bad-address line / bad-port line) and latency class, workers 1..1000, rate limiter on/off, through genericScanCmdOpts.newScanEngine (real file generator, real engine, real ResultChan) and either engine.Start directly (done observed: nothing in flight, all finished) or startScanEngine with the real JSON logger and exit delay >= default. Oracle: each probe-able target scanned exactly once, output records = positives, error records = failures (multisets). non-trivial: >100 targets, >=2 workers, all three probe outcomes present; distinct by case",
+		Rule: "target file of 0..5000 ip/port lines (more positives than the 2x1000-slot result buffers, more errors than the 100-slot error buffer) with a drawn outcome per target (positive / negative / probe error / bad-address line / bad-port line) and latency class (optionally a tail of slow positive probes so that the scan outlasts the exit delay), workers 1..1000, rate limiter on/off, through genericScanCmdOpts.newScanEngine (real file generator, real engine, real ResultChan) and either engine.Start directly (done observed: nothing in flight, all finished) or startScanEngine with the real JSON logger and exit delay >= default. Oracle: each probe-able target scanned exactly once, output records = positives, error records = failures (multisets). non-trivial: >100 targets, >=2 workers, all three probe outcomes present; distinct by case",
 		Gen: func(t *rapid.T) c08Case {
 			c := c08Case{}
 			c.N = rapid.SampledFrom([]int{0, 1, 2, 50, 101, 150, 400, 1200, maxN}).Draw(t, "n")
@@ -299,13 +305,95 @@ func TestC08Engine(t *testing.T) {
 				}
 			}
 			c.Workers = rapid.SampledFrom([]int{1, 2, 3, 10, 100, 100, 1000}).Draw(t, "workers")
+			if c.N > 0 && rapid.IntRange(0, 3).Draw(t, "slow-tail") == 0 {
+				// the last probes to finish are slow positives: the scan runs longer than the exit delay
+				k := rapid.SampledFrom([]int{1, 2, 8, 64}).Draw(t, "tail")
+				if k > c.Workers {
+					k = c.Workers
+				}
+				if k > c.N {
+					k = c.N
+				}
+				for i := c.N - k; i < c.N; i++ {
+					c.Outcome[i], c.Latency[i] = 'p', 4
+				}
+				c.TailMs = 420
+			}
 			c.Rate = rapid.Bool().Draw(t, "rate")
 			c.Direct = rapid.IntRange(0, 2).Draw(t, "direct") > 0
 			c.ExitMs = rapid.SampledFrom([]int{300, 300, 500}).Draw(t, "exit")
+			if c.TailMs > 0 {
+				c.TailMs = c.ExitMs + 120
+			}
 			c.StallMs = rapid.SampledFrom([]int{0, 0, 40, 80}).Draw(t, "stall")
 			return c
 		},
 		Check: c08Check,
+	})
+}
+
+// ---------------------------------------------------------------- error records of full commands (stderr lines)
+
+type c08ErrCase struct {
+	Cmd     string `json:"command"`
+	N       int    `json:"bad_entries"`
+	Mix     string `json:"causes"` // per entry, cyclic: 'I' bad address, 'P' bad port
+	Workers int    `json:"workers"`
+}
+
+func c08ErrCheck(c c08ErrCase) *kit.Verdict {
+	v := &kit.Verdict{Units: c.N}
+	v.Label("cmd=%s", c.Cmd)
+	v.Label("n=%s", bucket(c.N, 0, 1, 100, 101, 201, 1000))
+	var sb strings.Builder
+	want := map[string]int{}
+	for i := 0; i < c.N; i++ {
+		if c.Mix[i%len(c.Mix)] == 'I' {
+			fmt.Fprintf(&sb, `{"ip":"10.0.0.%d.9","port":80}`+"\n", i%200)
+			want["invalid ip"]++
+		} else {
+			fmt.Fprintf(&sb, `{"ip":"10.0.%d.%d","port":0}`+"\n", i/250, i%250)
+			want["invalid port"]++
+		}
+	}
+	files := &cmdFiles{}
+	defer files.cleanup()
+	args := []string{c.Cmd, "--json", "-w", fmt.Sprint(c.Workers), "-f", files.write("bad", sb.String())}
+	res := runCmd(cmdRun{Args: args, Timeout: 60 * time.Second})
+	line := "sx " + strings.Join(args, " ")
+	if res.Hung || res.Err != nil {
+		return v.Failf("%s: hung=%v err=%v", line, res.Hung, res.Err)
+	}
+	got := map[string]int{}
+	for _, l := range errorLines(res.Stderr) {
+		var rec map[string]interface{}
+		if json.Unmarshal([]byte(l), &rec) != nil {
+			return v.Failf("%s: error line is not JSON: %q", line, l)
+		}
+		msg, _ := rec["error"].(string)
+		got[msg]++
+	}
+	if d := diffMultiset(want, got); d != "" {
+		return v.Failf("%s\n%d entries that cannot become probes, error records on stderr differ: %s", line, c.N, d)
+	}
+	if strings.TrimSpace(res.Stdout) != "" {
+		return v.Failf("%s: output records although nothing could be probed: %s", line, clipN(res.Stdout, 200))
+	}
+	v.NonTrivial = c.N > 100
+	return v
+}
+
+func TestC08ErrorRecords(t *testing.T) {
+	kit.Run(t, kit.Spec[c08ErrCase]{
+		Prop: "C08",
+		Rule: "full socks / docker / elastic commands (in-process, default exit delay) on a target file of 0..3000 entries that all fail before any connection is made (bad address / port 0), workers 1..1000. Oracle: the error records written to stderr (one JSON line each) equal the failures as a multiset - more than the 100-slot error buffers and more than any per-second logging quota. non-trivial: > 100 failures; distinct by case",
+		Gen: func(t *rapid.T) c08ErrCase {
+			return c08ErrCase{Cmd: rapid.SampledFrom([]string{"socks", "docker", "elastic"}).Draw(t, "cmd"),
+				N:       rapid.SampledFrom([]int{0, 1, 99, 100, 101, 150, 201, 350, 1000, 3000}).Draw(t, "n"),
+				Mix:     rapid.SampledFrom([]string{"I", "P", "IP", "IIP"}).Draw(t, "mix"),
+				Workers: rapid.SampledFrom([]int{1, 2, 100, 1000}).Draw(t, "workers")}
+		},
+		Check: c08ErrCheck,
 	})
 }
 
